@@ -409,7 +409,12 @@ func intToValue(i int64) Value {
 	if i >= -maxInt && i <= maxInt {
 		return valueInt(i)
 	}
-	return valueFloat(i)
+	f := float64(i)
+	if f >= -maxInt && f <= maxInt {
+		// ±(2^53+1) rounds to ±2^53, which has an integer representation
+		return valueInt(int64(f))
+	}
+	return valueFloat(f)
 }
 
 func floatToInt(f float64) (result int64, ok bool) {
